@@ -632,6 +632,30 @@ func c14Construct(r *mon.Run, ai *apiInfo, name string, rep int64) {
 			r.Violate("group-form-differs", c, "%s: when the callback also adds to the enclosing group, g.%s(cb) renders\n%s\nbut g.Add(%s(cb)) renders\n%s", name, name, got, name, exp)
 		}
 	}
+	// Do whose callback leaves a case header, a Block chained onto the result: the statement returned by the Group form
+	// is the one the callback filled (the Block follows its Case directly), as in the other forms
+	if ft.NumIn() == 1 && ft.In(0) == tStmtFunc {
+		build := func(form int) string {
+			cb := func(st *jen.Statement) { st.Case(jen.Lit(1), jen.Lit(2)) }
+			blk := jen.Switch(jen.Id("v")).BlockFunc(func(outer *jen.Group) {
+				mon.Guard(func() {
+					switch form {
+					case 0:
+						gm.Func.Call([]reflect.Value{reflect.ValueOf(outer), reflect.ValueOf(cb)})[0].Interface().(*jen.Statement).Block(jen.Id("bodyQ").Call())
+					case 1:
+						outer.Add(fn.Call([]reflect.Value{reflect.ValueOf(cb)})[0].Interface().(*jen.Statement).Block(jen.Id("bodyQ").Call()))
+					default:
+						outer.Add(sm.Func.Call([]reflect.Value{reflect.ValueOf(&jen.Statement{}), reflect.ValueOf(cb)})[0].Interface().(*jen.Statement).Block(jen.Id("bodyQ").Call()))
+					}
+				})
+			})
+			out, _ := rawFile(blk)
+			return out
+		}
+		if g0, g1, g2 := build(0), build(1), build(2); g0 != g1 || g1 != g2 {
+			r.Violate("group-form-differs", c, "%s: a callback that leaves `case 1, 2` and a Block chained onto the result render\n--- Group form ---\n%s\n--- function form ---\n%s\n--- Statement form ---\n%s", name, g0, g1, g2)
+		}
+	}
 	// a callback that adds nothing (the usual conditional use): the Group form still appends the new statement and
 	// returns it, so tokens chained onto the result are part of the group
 	if n := ft.NumIn(); n > 0 && (ft.In(n-1) == tStmtFunc || ft.In(n-1) == tGroupFunc) && !isDict {
